@@ -80,6 +80,7 @@ structure LangInfo where
   lexModes : Array Nat := #[]
   ginl : List Nat := []
   gextra : List Nat := []
+  gorig : Nat := 0
   gskip : String := ""
   deriving Inhabited
 
@@ -147,7 +148,7 @@ def evalModelClosed (li : LangInfo) : String :=
     let init : Derive.InfoF := (List.range nvars).map (fun v =>
       match varSyms[v]? with
       | some (_, _, vis, name) =>
-        if vis == 'h' then { childMin := 2, plainMin := 2 } else
+        if vis == 'h' then { childMin := 2, plainMin := 2, fields := (Derive.fieldUniverse G []).eraseDups.map (fun f => (f, [], 0, 2)) } else
         match nt.find? (fun e => e.ty == (⟨name, vis == 'n'⟩ : TypeRef)) with
         | none => {}
         | some e =>
@@ -177,10 +178,12 @@ def evalModelClosed (li : LangInfo) : String :=
     let fieldName (fid : Nat) : String := match li.flds[fid - 1]? with | some (bs, _) => showName bs | none => s!"?{fid}"
     let shapeBad := (List.range nvars).findSome? (fun v => match varSyms[v]? with
       | some (_, _, vis, name) =>
-        if vis != 'n' || name.contains '@' || li.ginl.contains v then none else
-        -- non-terminals are numbered in rule order after the tokens; a rule renamed by a default alias is skipped
-        let ids := [li.L.tokenCount + v].filter (fun i => i < li.L.symbolCount && (match li.syms[i]? with
+        if vis != 'n' || v ≥ li.gorig || li.ginl.contains v then none else
+        -- the non-terminal symbol with the rule's name; when a default alias publishes ANOTHER rule under the same name
+        -- (two candidates) the rule is not compared
+        let cands := (List.range li.L.symbolCount).filter (fun i => i ≥ li.L.tokenCount && (match li.syms[i]? with
           | some (si, _) => si.named && si.visible && showName si.name == name | none => false))
+        let ids := if cands.length == 1 then cands else []
         let real := (li.reds.toList.filter (fun (sy, _, _) => ids.contains sy)).map (fun (_, cc, fs) => (cc, sortF (fs.map (fun (i, fid) => (i, fieldName fid)))))
         let model := (G.prodsOf v).map (fun p => (p.length, sortF (p.zipIdx.filterMap (fun (st, i) => st.field.map (fun f => (i, f))))))
         if ids.isEmpty then none else
@@ -191,8 +194,9 @@ def evalModelClosed (li : LangInfo) : String :=
           | none => none
       | none => none)
     let shapeVars := ((List.range nvars).filter (fun v => match varSyms[v]? with
-      | some (_, _, vis, name) => vis == 'n' && !name.contains '@' && !li.ginl.contains v &&
-          (match li.syms[li.L.tokenCount + v]? with | some (si, _) => si.named && si.visible && showName si.name == name | none => false)
+      | some (_, _, vis, name) => vis == 'n' && v < li.gorig && !li.ginl.contains v &&
+          ((List.range li.L.symbolCount).filter (fun i => i ≥ li.L.tokenCount && (match li.syms[i]? with
+            | some (si, _) => si.named && si.visible && showName si.name == name | none => false))).length == 1
       | none => false)).length
     -- every kind the (inlined) productions of a described rule can show is a kind of the language's symbol table
     let kindBad : Option TypeRef := checked.findSome? (fun v => (G.prodsOf v).findSome? (fun p => p.findSome? (fun st =>
@@ -355,6 +359,7 @@ def step (s : St) (line : String) : IO St := do
     return s.upd id (fun li => { li with gprods := li.gprods.push (natOf var, ps) })
   | ["gend", id, roots] => return s.upd id (fun li => { li with groots := (roots.splitOn ",").map natOf })
   | ["ginl", id, vs] => return s.upd id (fun li => { li with ginl := if vs == "-" then [] else (vs.splitOn ",").map natOf })
+  | ["gorig", id, n] => return s.upd id (fun li => { li with gorig := natOf n })
   | ["gextra", id, vs] => return s.upd id (fun li => { li with gextra := if vs == "-" then [] else (vs.splitOn ",").map natOf })
   | ["gskip", id, why] => return s.upd id (fun li => { li with gskip := why })
   | ["nodetypes", id, h] =>
